@@ -349,9 +349,16 @@ class Queue(Greenlet):
             self._add_queued(entry)
 
     def _remove(self, id):
-        self._pool_spawn('store', self.store.remove, id)
-        self.queued_ids.discard(id)
-        self.active_ids.discard(id)
+        self._pool_spawn('store', self._remove_stored, id)
+
+    def _remove_stored(self, id):
+        # The id stays active until it is gone from storage, otherwise a
+        # stale timetable entry could start another attempt in between.
+        try:
+            self.store.remove(id)
+        finally:
+            self.queued_ids.discard(id)
+            self.active_ids.discard(id)
 
     def _bounce(self, envelope, reply):
         bounce = self.bounce_factory(envelope, reply)
@@ -442,7 +449,7 @@ class Queue(Greenlet):
             fail_env = envelope.copy(rcpts)
             self._retry_later(id, fail_env, replies, delivered)
         else:
-            self.store.remove(id)
+            self._remove_stored(id)
 
     def _dequeue(self, id):
         try:
